@@ -1,5 +1,6 @@
 import GoBk.Base.Bytes
 import GoBk.Spec.Secp
+import GoBk.Spec.Fast
 import GoBk.Gen.Consts
 /-
   API-level model of the exported methods of `KoblitzCurve` (/repo/bec/btcec.go) on affine
@@ -17,8 +18,12 @@ def moduloReduce (k : Bytes) : Bytes :=
 
 def add (a b : Pt) : Pt := padd a b
 def double (a : Pt) : Pt := pdouble a
-def scalarMult (a : Pt) (k : Bytes) : Pt := smul (beNat (moduloReduce k)) a
-def scalarBaseMult (k : Bytes) : Pt := smul (beNat (moduloReduce k)) G
+/-- `ScalarMult`: `k • a`.  On valid points the executable takes the Jacobian ladder `Fast.smul`,
+proved equal to the reference `Spec.smul` (`Fast.smul_eq`); see `Curve.scalarMult_def`. -/
+def scalarMult (a : Pt) (k : Bytes) : Pt :=
+  if valid a = true then Fast.smul (beNat (moduloReduce k)) a else smul (beNat (moduloReduce k)) a
+/-- `ScalarBaseMult`: `k • G` (`Fast.smulG_eq`; see `Curve.scalarBaseMult_def`). -/
+def scalarBaseMult (k : Bytes) : Pt := Fast.smulG (beNat (moduloReduce k))
 def isOnCurve (a : Pt) : Bool := onCurve a
 
 end GoBk.Curve
